@@ -71,6 +71,14 @@ def _xclone(floor, *prefixes):
     return lambda c: RX.clone_shares(c.P, c.E, _pfx(*prefixes), floor)
 
 
+def _l1_tasks(r):
+    """L1 instances / violations of code that runs on a scheduler's worker (the TASK role in the stable name)"""
+    r.instances = [i for i in r.instances if i[0] and ("/TASK" in str(i[0][0]) or "::{closure" in str(i[0][0]) and any(
+        m in str(i[0][0]) for m in ("debounce", "observe_on", "subscribe_on", "interval", "timer", "timeout", "delay")))]
+    r.violations = [v for v in r.violations if v.key and "/TASK" in str(v.key[0])]
+    return r
+
+
 def _only_subjects(r):
     r.instances = [i for i in r.instances if i[0] and str(i[0][0]).lstrip("<").startswith("subjects::")]
     r.violations = [v for v in r.violations if v.key and str(v.key[0]).lstrip("<").startswith("subjects::")]
@@ -98,6 +106,8 @@ def rules_for(pid):
             ("CLONE-SHARES", _xclone(2, "observer::", "internals::function_wrapper::"), 2),
             ("F-slot-truth", lambda c: RO.f_slot_truth(c.P, c.E), 4),
             ("INIT", lambda c: RX.init_rule(c.P, c.E, ("observer::",)), 2),
+            ("K-slot-fresh", lambda c: RK.k_slot_fresh(c.P, c.E), 4),
+            ("O-slot-purity", lambda c: RO.o_slot_purity(c.P, c.E), 3),
         ],
         "C02": [
             ("H-complete", lambda c: RH.h_complete(c.P, c.E, c.H, scope_c02), 14),
@@ -130,6 +140,7 @@ def rules_for(pid):
             ("SUB-inputs", lambda c: RX.sub_inputs(c.P, c.E, c.H), 40),
             ("ARITY", lambda c: RAR.arity_rule(c.P, c.E, c.H), 3),
             ("COMPLETE-KIND", lambda c: ROPS.complete_kind_rule(c.P, c.E, c.H), 8),
+            ("GATE-ORDER", lambda c: ROPS.gate_order_rule(c.P, c.E, c.H), 4),
         ],
         "C04": [
             ("H-error", lambda c: RH.h_error(c.P, c.E, c.H), 26),
@@ -149,6 +160,7 @@ def rules_for(pid):
             ("S-gate", lambda c: RO.s_gate(c.P, c.E), 3),
             # amb is not an error handler: the error of the input that signals first (or of the winner) is mirrored
             ("AMB", lambda c: ROPS.amb_rule(c.P, c.E, c.H), 1),
+            ("GATE", lambda c: ROPS.gates_rule(c.P, c.E, c.H), 4),
         ],
         "C05": [
             ("O-unsub-order", lambda c: RO.o_unsub_order(c.P, c.E), 4),
@@ -183,6 +195,8 @@ def rules_for(pid):
             # before anything is posted): otherwise the queued task subscribes the source for a subscriber that has left
             ("T1", lambda c: RS.t1_abort_wired(c.P, c.E), 3),
             ("HOOK-STORE", lambda c: RO.hook_store(c.P, c.E, ("observer::", "internals::stream_controller::")), 2),
+            # start_with re-checks the subscriber after its last prefix item before it subscribes the source
+            ("D-compose2-start_with", lambda c: _only(ROPS.compose_rule(c.P, c.E, c.H), ("operators::start_with::StartWith",)), 1),
         ],
         "C07": [
             ("L1", lambda c: RL.l1_reentrancy(c.P, c.E, c.H), 19),
@@ -193,6 +207,8 @@ def rules_for(pid):
             # lock order of the queue's cells (L3, Q1, Q10) and the wake-up protocol: a parked worker is woken by every enabling write (Q2),
             # its predicate reads both conditions (Q3) and it re-checks abort before it pops (Q4) - else it waits forever
             ("Q-lock-order", lambda c: _only(RQ.q_rules(c.P, c.E), ("L3", "Q1", "Q10", "Q2", "Q3", "Q4")), 5),
+            # a take that never finishes leaves subscribe() spinning in an endless but cancellable source (repeat, a while-is_subscribed loop)
+            ("COUNT-take", lambda c: _only(RCNT.count_rule(c.P, c.E, c.H), ("operators::take::Take",)), 1),
         ],
         "C08": [
             ("Q", lambda c: RQ.q_rules(c.P, c.E), 10),
@@ -210,6 +226,7 @@ def rules_for(pid):
             ("O-unsub-order", lambda c: RO.o_unsub_order(c.P, c.E), 4),
             ("SUB-live-gate", lambda c: RO.sub_live_gate(c.P, c.E), 1),
             ("H-early-stop", lambda c: RH.h_early_stop(c.P, c.E, c.H), 24),
+            ("K-slot-fresh", lambda c: RK.k_slot_fresh(c.P, c.E), 4),
         ],
         "C18": [
             ("W", lambda c: RW.w_rules(c.P, c.E), 4),
@@ -247,6 +264,8 @@ def rules_for(pid):
             ("L1-subjects", lambda c: _only_subjects(RL.l1_reentrancy(c.P, c.E, c.H)), 1),
             ("INIT", lambda c: RX.init_rule(c.P, c.E, ("subjects::",)), 2),
             ("HOOK-STORE", lambda c: RO.hook_store(c.P, c.E, ("observer::",)), 1),
+            # AsyncSubject::observable is subject.take_last(1): its hand-out at completion (last item, then complete - also for an empty buffer)
+            ("COUNT-take_last", lambda c: _only(RCNT.count_rule(c.P, c.E, c.H), ("operators::take_last::TakeLast",)), 1),
         ],
         "C11": [
             ("D", lambda c: RJ.d_rules(c.P, c.E, c.H), 3),
@@ -260,7 +279,7 @@ def rules_for(pid):
             ("COMPLETE-KIND", lambda c: ROPS.complete_kind_rule(c.P, c.E, c.H), 8),
         ],
         "C12": [
-            ("J", lambda c: _only(RJ.j_rules(c.P, c.E), ("J1", "J2", "J3", "J6", "J7")), 5),
+            ("J", lambda c: _only(RJ.j_rules(c.P, c.E), ("J1", "J2", "J3", "J6", "J7", "J10")), 5),
             ("J8", lambda c: RJ.j_windows(c.P, c.E), 4),
             ("K-hot-state", lambda c: RX.k_hot_state(c.P, c.E, c.H), 3),
             ("X-blocking-acq", _xacq("subjects::"), 15),
@@ -269,7 +288,7 @@ def rules_for(pid):
         ],
         "C13": [
             ("P", lambda c: RJ.p_rules(c.P, c.E), 6),
-            ("J", lambda c: _only(RJ.j_rules(c.P, c.E), ("J1", "J2", "J5", "J6", "J7", "J9")), 3),
+            ("J", lambda c: _only(RJ.j_rules(c.P, c.E), ("J1", "J2", "J5", "J6", "J7", "J9", "J10")), 3),
             ("X-blocking-acq", _xacq("operators::ref_count::", "operators::replay::", "operators::publish::", "subjects::"), 15),
             ("CLONE-SHARES", _xclone(3, "operators::ref_count::", "operators::replay::", "operators::publish::"), 3),
             ("OBS-fresh", lambda c: RX.obs_fresh(c.P, c.E, c.H), 30),
@@ -290,6 +309,8 @@ def rules_for(pid):
             ("S-wiring", lambda c: RO.s_wiring(c.P, c.E), 3),
             ("INIT", lambda c: RX.init_rule(c.P, c.E, ("schedulers::", "internals::stream_controller::")), 2),
             ("HOOK-STORE", lambda c: RO.hook_store(c.P, c.E, ("internals::stream_controller::",)), 1),
+            # a posted task that blocks on a lock its own thread holds never returns to the queue: the worker never sees the abort
+            ("L1-tasks", lambda c: _l1_tasks(RL.l1_reentrancy(c.P, c.E, c.H)), 1),
         ],
         "C19": [
             ("A19b", lambda c: RJ.a19b(c.P, c.E), 3),
@@ -302,6 +323,7 @@ def rules_for(pid):
             # the arbitration cells (three slots + the terminal flag) are ONE set per subscriber: every clone shares them
             ("CLONE-SHARES", _xclone(2, "observer::", "internals::function_wrapper::"), 2),
             ("INIT", lambda c: RX.init_rule(c.P, c.E, ("observer::",)), 2),
+            ("O-slot-purity", lambda c: RO.o_slot_purity(c.P, c.E), 3),
         ],
         "C14": [
             ("K-fresh-state", lambda c: RK.k_fresh_state(c.P, c.E), 28),
@@ -312,6 +334,7 @@ def rules_for(pid):
             # resubscription from inside a hot source's terminal notification (retry, on_error_resume_next, concat of the same
             # subject): the registry is emptied BEFORE the observers are notified, so what registers meanwhile survives
             ("J4", lambda c: _only(RJ.j_rules(c.P, c.E), ("J4",)), 2),
+            ("K-slot-fresh", lambda c: RK.k_slot_fresh(c.P, c.E), 4),
         ],
     }
     return R.get(pid, [])
